@@ -48,7 +48,8 @@ CHECKS = {
     technique='Coq proof (environment-model laws) + differential correspondence + reference interpreter oracle'),
  'C07': dict(
     text='Theorems (Coq): whenever the static scope stack describes the dynamic frame chain (chain_matches), a symbol resolved to distance k reads and writes exactly the binding '
-         'dynamic lookup finds; the resolver computes the distance of the innermost recording scope. PARTIAL: preservation of chain_matches by the whole evaluator is not '
+         'dynamic lookup finds; the resolver computes the distance of the innermost recording scope; resolution only annotates (erasing the distances from the resolved form '
+         'gives the original form, all forms and scope stacks) and is idempotent. PARTIAL: preservation of chain_matches by the whole evaluator is not '
          'proved; whole programs are decided by the differential check (resolved vs unresolved runs, exhaustive binder chains to depth 5).' + DIFF,
     technique='Coq proof (resolution agrees with dynamic lookup under the chain invariant) + differential correspondence'),
  'C08': dict(
